@@ -27,6 +27,11 @@ const PARAMS = {
   objPat: (T) => `({ zz1, ...rest }: ${T}) => () => null`,
   objPatEmpty: (T) => `({}: ${T}) => () => null`,
   arrPat: (T) => `([first]: ${T}) => () => null`,
+  objPatDefault: (T) => `({ zz1 }: ${T} = {} as any) => () => null`,
+  objPatEmptyDefault: (T) => `({}: ${T} = uo) => () => null`,
+  arrPatDefault: (T) => `([]: ${T} = [] as any) => () => null`,
+  fnExprObjPatDefault: (T) => `function ({ zz1, ...rest }: ${T} = {} as any) { return () => null; }`,
+  identDefault: (T) => `(props: ${T} = uo as any) => () => null`,
   fnExprIdent: (T) => `function (props: ${T}) { return () => null; }`,
   fnExprObjPat: (T) => `function setup({ zz1 }: ${T}, ctx: any) { return () => null; }`,
   asyncArrow: (T) => `async (props: ${T}) => () => null`,
